@@ -4,6 +4,7 @@ from typing import TYPE_CHECKING, Callable, Deque, Dict, List, NamedTuple, Optio
 
 from django.utils.safestring import mark_safe
 
+from django_components.perfutil.provide import unregister_provide_reference
 from django_components.util.exception import component_error_message
 
 if TYPE_CHECKING:
@@ -156,6 +157,27 @@ def component_post_render(
     #    repeating this whole process until we've processed all nested components.
     # 5. If the placeholder ID is None, then we've reached the end of the component's HTML content,
     #    and we can go one level up to continue the process with component's parent.
+    try:
+        output = _render_component_tree(render_id, on_component_rendered_callbacks)
+    except Exception:
+        # The render failed part-way. Drop everything that the components of this tree
+        # have registered, because nothing will come to collect it anymore.
+        for component_id in on_component_rendered_callbacks:
+            component_renderer_cache.pop(component_id, None)
+            child_component_attrs.pop(component_id, None)
+            component_context_cache.pop(component_id, None)
+            unregister_provide_reference(component_id)
+        raise
+
+    output = on_html_rendered(output)
+
+    return mark_safe(output)
+
+
+def _render_component_tree(
+    render_id: str,
+    on_component_rendered_callbacks: Dict[str, Callable[[str], str]],
+) -> str:
     process_queue: Deque[PostRenderQueueItem] = deque()
 
     process_queue.append(
@@ -295,8 +317,4 @@ def component_post_render(
         process_queue.extendleft(reversed(parts_to_process))
 
     # Lastly, join up all pieces of the component's HTML content
-    output = "".join(content_parts)
-
-    output = on_html_rendered(output)
-
-    return mark_safe(output)
+    return "".join(content_parts)
